@@ -14,53 +14,64 @@ Qed.
 
 (* ---------------------------------------------------------------- invariants *)
 
+Definition n_upto (c : N) : znode -> Prop := n_all (fun T d => le_all c d).
 Definition z_le (c : N) (s : zstate) : Prop :=
-  Forall (fun p => le_all c (snd p)) (z_apex s) /\
-  Forall (fun p => Forall (fun q => le_all c (snd q)) (n_rrsets (snd p)) /\ le_all c (n_special (snd p))) (z_nodes s).
+  Forall (fun p => le_all c (snd p)) (z_apex s) /\ Forall (fun p => n_upto c (snd p)) (z_nodes s).
 
 Lemma z_le_q c w s : c < w -> z_le c s -> z_q c w s.
 Proof.
   intros Hc [Ha Hn]. split.
   - eapply Forall_impl; [|exact Ha]. intros p Hp. now apply cq_of_le.
-  - eapply Forall_impl; [|exact Hn]. intros p [H1 H2]. split; [|now apply cq_of_le].
-    eapply Forall_impl; [|exact H1]. intros q Hq. now apply cq_of_le.
+  - apply (ns_all_impl (fun T d => le_all c d)); [|exact Hn]. intros T d Hd. now apply cq_of_le.
 Qed.
 
 Lemma z_q_le c s : z_q c (c + 1) s -> z_le (c + 1) s.
 Proof.
   intros [Ha Hn]. split.
   - eapply Forall_impl; [|exact Ha]. intros p Hp. now apply le_of_cq.
-  - eapply Forall_impl; [|exact Hn]. intros p [H1 H2]. split; [|now apply le_of_cq].
-    eapply Forall_impl; [|exact H1]. intros q Hq. now apply le_of_cq.
+  - apply (ns_all_impl (fun T d => cq c (c + 1) d)); [|exact Hn]. intros T d Hd. now apply le_of_cq.
 Qed.
 
 Lemma z_le_weaken a b s : a <= b -> z_le a s -> z_le b s.
 Proof.
   intros Hab [Ha Hn]. split.
   - eapply Forall_impl; [|exact Ha]. intros p Hp. now apply (le_all_weaken a).
-  - eapply Forall_impl; [|exact Hn]. intros p [H1 H2]. split; [|now apply (le_all_weaken a)].
-    eapply Forall_impl; [|exact H1]. intros q Hq. now apply (le_all_weaken a).
+  - apply (ns_all_impl (fun T d => le_all a d)); [|exact Hn]. intros T d Hd. now apply (le_all_weaken a).
 Qed.
 
 Lemma Forall_map' {A B} (f : A -> B) (P : B -> Prop) l : Forall (fun x => P (f x)) l -> Forall P (map f l).
 Proof. intros H. induction H; cbn; constructor; auto. Qed.
 
+Lemma n_q_rollback_upto c w : forall n, n_q c w n -> n_upto c (n_rollback n w).
+Proof.
+  induction n as [rs sp ch IH] using znode_ind'. intros H. destruct (n_q_inv _ _ _ _ _ H) as [Hr [Hs Hch]].
+  rewrite n_rollback_eq. constructor.
+  - unfold rs_rollback, rs_all, al_map. apply Forall_map'. exact Hr.
+  - exact Hs.
+  - unfold al_map. apply Forall_map'. unfold ns_q, ns_all in Hch. rewrite Forall_forall in *.
+    intros p Hin. cbn [snd]. exact (IH p Hin (Hch p Hin)).
+Qed.
+
 Lemma z_q_rollback_le c w s : z_q c w s -> z_le c (z_rollback s w).
 Proof.
   intros [Ha Hn]. rewrite z_rollback_eq. split; cbn [z_apex z_nodes].
   - unfold rs_rollback, rs_all, al_map. apply Forall_map'. exact Ha.
-  - unfold al_map. apply Forall_map'. eapply Forall_impl; [|exact Hn]. intros p [H1 H2]. cbn [snd].
-    rewrite n_rollback_eq. cbn [n_rrsets n_special]. split; [|exact H2].
-    unfold rs_rollback, rs_all, al_map. apply Forall_map'. exact H1.
+  - unfold al_map. apply Forall_map'. eapply Forall_impl; [|exact Hn]. intros p Hp. cbn [snd]. now apply n_q_rollback_upto.
+Qed.
+
+Lemma n_rollback_id c w : c < w -> forall n, n_upto c n -> n_rollback n w = n.
+Proof.
+  intros Hc. induction n as [rs sp ch IH] using znode_ind'. intros H. inversion H as [? ? ? H1 H2 H3]; subst.
+  rewrite n_rollback_eq. f_equal; [now apply (rs_rollback_id c)|now apply (rollback_id c)|].
+  apply al_map_id. rewrite Forall_forall in *. intros p Hin. exact (IH p Hin (H3 p Hin)).
 Qed.
 
 Lemma z_rollback_id c w s : c < w -> z_le c s -> z_eqv (z_rollback s w) s.
 Proof.
   intros Hc [Ha Hn]. rewrite z_rollback_eq. split; cbn [z_apex z_nodes].
   - rewrite (rs_rollback_id c); [apply rs_eqv_refl|exact Hc|exact Ha].
-  - rewrite al_map_id; [apply ns_le_refl|]. intros p Hin. rewrite Forall_forall in Hn. destruct (Hn p Hin) as [H1 H2].
-    destruct p as [k [rs sp]]. cbn [snd n_rrsets n_special] in *. rewrite n_rollback_eq. cbn [n_rrsets n_special].
-    f_equal; [now apply (rs_rollback_id c)|now apply (rollback_id c)].
+  - rewrite al_map_id; [apply ns_le_refl|]. intros p Hin. rewrite Forall_forall in Hn.
+    exact (n_rollback_id c w Hc (snd p) (Hn p Hin)).
 Qed.
 
 (* state invariant of the reader/writer protocol:
@@ -73,6 +84,20 @@ Definition zinv (s : zstate) : Prop :=
       w_new wr = z_cur s + 1 /\ (w_open wr = true -> w_dirty wr = true) /\
       (if w_dirty wr then z_q (z_cur s) (z_cur s + 1) s else z_le (z_cur s) s)
   end.
+
+(* use of a write handle after the commit or drop that ended its session *)
+Definition is_stale (e : event) : bool := match e with EStale _ => true | _ => false end.
+Fixpoint no_stale (evs : list event) : bool :=
+  match evs with [] => true | e :: tl => negb (is_stale e) && no_stale tl end.
+(* either the implementation rejects such use (T1 flag), or the trace has none *)
+Definition stale_ok (e : event) : Prop := stale_handle_rejected = true \/ is_stale e = false.
+Definition stale_free (evs : list event) : Prop := stale_handle_rejected = true \/ no_stale evs = true.
+
+Lemma stale_free_cons e tl : stale_free (e :: tl) -> stale_ok e /\ stale_free tl.
+Proof.
+  intros [H|H]; [split; left; exact H|]. cbn [no_stale] in H. apply andb_prop in H. destruct H as [H1 H2].
+  split; right; [now apply negb_true_iff in H1|exact H2].
+Qed.
 
 Fixpoint ncommits (evs : list event) : N :=
   match evs with
@@ -110,13 +135,13 @@ Proof. intros Hc Hr. rewrite ver_le_small by lia. apply N.leb_gt. lia. Qed.
 (* ---------------------------------------------------------------- one step *)
 
 Lemma step_inv s e :
-  zinv s -> z_cur s + 2 < LIM ->
+  zinv s -> z_cur s + 2 < LIM -> stale_ok e ->
   zinv (step s e) /\
   z_cur s <= z_cur (step s e) /\
   z_cur (step s e) <= z_cur s + (match e with ECommit => 1 | _ => 0 end) /\
   (forall r, r <= z_cur s -> view_eq (step s e) s r).
 Proof.
-  unfold LIM. intros Hinv Hlim.
+  unfold LIM. intros Hinv Hlim Hstale.
   assert (Hsame : forall k, zinv s /\ z_cur s <= z_cur s /\ z_cur s <= z_cur s + k /\ (forall r, r <= z_cur s -> view_eq s s r)).
   { intros k. repeat split; try lia; auto. }
   assert (Hdata : is_data e = true ->
@@ -133,7 +158,7 @@ Proof.
     destruct (data_op_base (z_cur s) (z_cur s + 1) s e ltac:(lia) Hq) as [Hq' Heqv].
     assert (Hfields : z_cur (data_op s (z_cur s + 1) e) = z_cur s /\ z_writer (data_op s (z_cur s + 1) e) = z_writer s).
     { destruct e; cbn [data_op]; try (split; reflexivity);
-        try (destruct (name =? 0); split; reflexivity). }
+        try (unfold at_node; destruct name; split; reflexivity). }
     destruct Hfields as [Hc' Hw'].
     repeat split.
     - unfold zinv. rewrite Hw', Hw, Hc'. rewrite (Hod eq_refl). auto.
@@ -144,7 +169,9 @@ Proof.
       rewrite <- (query_eqv _ _ r name t Heqv). apply query_base. apply below_open; unfold LIM; lia.
     - rewrite <- (walk_base (z_cur s + 1) (data_op s (z_cur s + 1) e) r) by (apply below_open; unfold LIM; lia).
       rewrite <- (walk_eqv _ _ r Heqv). apply walk_base. apply below_open; unfold LIM; lia. }
-  destruct e; try (apply Hdata; reflexivity); try exact (Hsame _).
+  destruct e; try (apply Hdata; reflexivity); try exact (Hsame _);
+    try (destruct Hstale as [Hrej|Hns]; [|discriminate];
+         assert (E : step s (EStale e) = s) by (cbn [step]; now rewrite Hrej); rewrite E; exact (Hsame _)).
   - (* EWAcquire *)
     destruct (z_writer s) as [wr|] eqn:Hw.
     + assert (E : step s EWAcquire = s) by (cbn [step]; now rewrite Hw). rewrite E. exact (Hsame _).
@@ -169,9 +196,10 @@ Proof.
   - (* ECommit *)
     destruct (z_writer s) as [wr|] eqn:Hw.
     + unfold zinv in Hinv. rewrite Hw in Hinv. destruct Hinv as [Hnew [Hod Hq]].
-      assert (E : step s ECommit = mkz (z_cur s + 1) (z_apex s) (z_nodes s) (Some (mkw (z_cur s + 2) false false))).
+      assert (E : step s ECommit = mkz (z_cur s + 1) (z_apex s) (z_nodes s) (Some (mkw (z_cur s + 2) false false))
+                                       (if w_open wr then Some (z_cur s + 1) else z_handle s)).
       { cbn [step]. rewrite Hw. cbv [publish_sets_current_to_new publish_advances_new_version publish_clears_dirty].
-        rewrite Hnew. rewrite ver_next_small by lia. do 3 f_equal. lia. }
+        rewrite Hnew. rewrite ver_next_small by lia. f_equal. do 2 f_equal. lia. }
       rewrite E.
       split; [|split; [|split]]; cbn [z_cur]; try lia.
       * unfold zinv. cbn [z_writer z_cur w_new w_dirty w_open].
@@ -185,20 +213,21 @@ Proof.
     destruct (z_writer s) as [wr|] eqn:Hw.
     + unfold zinv in Hinv. rewrite Hw in Hinv. destruct Hinv as [Hnew [Hod Hq]].
       destruct (w_dirty wr) eqn:Hdi.
-      * assert (E : step s EDrop = set_writer (z_rollback s (z_cur s + 1)) None).
+      * assert (E : step s EDrop = mkz (z_cur s) (z_apex (z_rollback s (z_cur s + 1))) (z_nodes (z_rollback s (z_cur s + 1))) None
+                                       (if w_open wr then Some (z_cur s + 1) else z_handle s)).
         { cbn [step]. rewrite Hw, Hdi, Hnew. reflexivity. }
         rewrite E.
-        split; [|split; [|split]]; cbn [set_writer z_cur z_rollback]; try lia.
-        -- unfold zinv. cbn [set_writer z_writer z_cur].
+        split; [|split; [|split]]; cbn [z_cur]; try lia.
+        -- unfold zinv. cbn [z_writer z_cur].
            destruct (z_q_rollback_le _ _ _ Hq) as [H1 H2]. split; assumption.
         -- intros r Hr. apply (view_eq_trans _ (z_rollback s (z_cur s + 1))).
            ++ apply view_of_same. split; reflexivity.
            ++ apply view_of_base. apply below_open; unfold LIM; lia.
-      * assert (E : step s EDrop = set_writer s None).
-        { cbn [step]. rewrite Hw, Hdi. reflexivity. }
+      * assert (E : step s EDrop = mkz (z_cur s) (z_apex s) (z_nodes s) None (if w_open wr then Some (z_cur s + 1) else z_handle s)).
+        { cbn [step]. rewrite Hw, Hdi, Hnew. reflexivity. }
         rewrite E.
-        split; [|split; [|split]]; cbn [set_writer z_cur]; try lia.
-        -- unfold zinv. cbn [set_writer z_writer z_cur]. destruct Hq as [H1 H2]. split; assumption.
+        split; [|split; [|split]]; cbn [z_cur]; try lia.
+        -- unfold zinv. cbn [z_writer z_cur]. destruct Hq as [H1 H2]. split; assumption.
         -- intros r _. apply view_of_same. split; reflexivity.
     + assert (E : step s EDrop = s) by (cbn [step]; now rewrite Hw). rewrite E. exact (Hsame _).
 Qed.
@@ -208,15 +237,16 @@ Qed.
 (* snapshot isolation: over every trace of API calls, a reader pinned at a
    version r <= current keeps reading exactly the same answers and the same walk *)
 Theorem snapshot_isolation : forall evs s r,
-  zinv s -> r <= z_cur s -> z_cur s + ncommits evs + 2 < LIM ->
+  zinv s -> r <= z_cur s -> z_cur s + ncommits evs + 2 < LIM -> stale_free evs ->
   (forall name t, query (run s evs) r name t = query s r name t) /\ walk (run s evs) r = walk s r.
 Proof.
-  induction evs as [|e tl IH]; intros s r Hinv Hr Hlim; [split; reflexivity|].
+  induction evs as [|e tl IH]; intros s r Hinv Hr Hlim Hsf; [split; reflexivity|].
+  destruct (stale_free_cons _ _ Hsf) as [Hse Hsf'].
   assert (Hl : z_cur s + 2 < LIM) by (cbn [ncommits] in Hlim; destruct e; lia).
-  destruct (step_inv s e Hinv Hl) as [Hinv' [Hmono [Hup Hview]]].
+  destruct (step_inv s e Hinv Hl Hse) as [Hinv' [Hmono [Hup Hview]]].
   cbn [run fold_left]. change (fold_left step tl (step s e)) with (run (step s e) tl).
   assert (Hlim' : z_cur (step s e) + ncommits tl + 2 < LIM) by (cbn [ncommits] in Hlim; destruct e; lia).
-  destruct (IH (step s e) r Hinv' ltac:(lia) Hlim') as [H1 H2].
+  destruct (IH (step s e) r Hinv' ltac:(lia) Hlim' Hsf') as [H1 H2].
   destruct (Hview r Hr) as [H3 H4]. split; [intros; now rewrite H1|congruence].
 Qed.
 
@@ -243,7 +273,7 @@ Proof.
     { destruct e; cbn [is_data] in He; try discriminate; cbn [step is_data]; now rewrite Hw, Hop, Hnew. }
     destruct (data_op_base (z_cur s) (z_cur s + 1) s e ltac:(lia) Hq) as [Hq' Heqv].
     assert (Hfields : z_cur (data_op s (z_cur s + 1) e) = z_cur s /\ z_writer (data_op s (z_cur s + 1) e) = z_writer s).
-    { destruct e; cbn [data_op]; try (split; reflexivity); try (destruct (name =? 0); split; reflexivity). }
+    { destruct e; cbn [data_op]; try (split; reflexivity); try (unfold at_node; destruct name; split; reflexivity). }
     destruct Hfields as [Hc' Hw'].
     cbn [run fold_left]. change (fold_left step tl (step s e)) with (run (step s e) tl). rewrite Hst in *.
     specialize (IH (data_op s (z_cur s + 1) e) wr Htl).
@@ -283,8 +313,8 @@ Proof.
   destruct (session_run ops s1 _ Hd Hw1 eq_refl eq_refl Hn1 Hq1 Hl1) as [Hw2 [Hc2 [Hq2 Heqv]]].
   cbn zeta. rewrite !run_app. fold s1. set (s2 := run s1 ops) in *.
   cbn [run fold_left step]. rewrite Hw2. cbv [drop_rolls_back_when_dirty]. cbn [w_dirty w_new andb].
-  cbn [set_writer z_cur z_writer]. rewrite z_rollback_eq. cbn [z_cur].
-  repeat split; [congruence| |].
+  cbn [set_writer z_cur z_writer].
+  repeat split; [rewrite z_rollback_eq; cbn [z_cur]; congruence| |].
   - intros name t.
     rewrite (query_same _ (z_rollback s2 (z_cur s + 1))) by (split; reflexivity).
     rewrite <- Hc1 in *. rewrite <- (query_eqv _ _ v name t Heqv).
@@ -324,9 +354,11 @@ Proof.
   split.
   - assert (Hiso : (forall name t, query (run s ([EWAcquire; EWOpen] ++ ops)) (z_cur s) name t = query s (z_cur s) name t) /\
                    walk (run s ([EWAcquire; EWOpen] ++ ops)) (z_cur s) = walk s (z_cur s)).
-    { apply snapshot_isolation; [exact Hinv|lia|].
-      assert (E : ncommits ([EWAcquire; EWOpen] ++ ops) = 0) by (cbn [app ncommits]; now apply ncommits_data).
-      rewrite E. lia. }
+    { apply snapshot_isolation; [exact Hinv|lia| |].
+      - assert (E : ncommits ([EWAcquire; EWOpen] ++ ops) = 0) by (cbn [app ncommits]; now apply ncommits_data).
+        rewrite E. lia.
+      - right. cbn [app no_stale is_stale negb andb]. clear -Hd. induction Hd as [|e tl He _ IH]; [reflexivity|].
+        cbn [no_stale]. destruct e; cbn [is_data] in He; try discriminate; exact IH. }
     rewrite run_app in Hiso. fold s1 s2 in Hiso. destruct Hiso as [H1 H2].
     repeat split; [congruence|exact H1|exact H2].
   - cbn [step]. rewrite Hw2. cbv [publish_sets_current_to_new publish_advances_new_version publish_clears_dirty].
@@ -345,35 +377,80 @@ Proof.
   intros rd tl. cbn [trace]. rewrite Hw. cbv [writer_takes_mutex]. eauto.
 Qed.
 
-(* walk enumerates exactly the stored records that have a value at the reader's version *)
-Theorem walk_exact : forall s v name t rr,
-  In (name, t, rr) (walk s v) <->
-  (name = 0 /\ exists d, In (t, d) (z_apex s) /\ v_get d v = Some rr) \/
-  (exists n, In (name, n) (z_nodes s) /\
-     ((exists d, In (t, d) (n_rrsets n) /\ v_get d v = Some rr) \/
-      (t = 5 /\ n_with_special n v = Some (SCname rr)))).
+(* walk enumerates exactly the records of the reader's version: the RRsets that
+   have a value at that version, the CNAME of a CNAME node, NS / DS / glue of a
+   zone cut -- and nothing below a zone cut *)
+Inductive n_has (v : N) : list N -> znode -> (list N * N * N) -> Prop :=
+| has_rr path rs sp ch t d rr :
+    In (t, d) rs -> v_get d v = Some rr -> n_has v path (mknode rs sp ch) (path, t, rr)
+| has_cut_ns path rs sp ch ns ds glue :
+    sp_get sp v = Some (SCut ns ds glue) -> n_has v path (mknode rs sp ch) (path, 2, ns)
+| has_cut_ds path rs sp ch ns d glue :
+    sp_get sp v = Some (SCut ns (Some d) glue) -> n_has v path (mknode rs sp ch) (path, 43, d)
+| has_cut_glue path rs sp ch ns ds g :
+    sp_get sp v = Some (SCut ns ds (Some g)) -> n_has v path (mknode rs sp ch) (path, 1, g)
+| has_cname path rs sp ch id :
+    sp_get sp v = Some (SCname id) -> n_has v path (mknode rs sp ch) (path, 5, id)
+| has_child path rs sp ch k c x :
+    (forall ns ds glue, sp_get sp v <> Some (SCut ns ds glue)) ->
+    In (k, c) ch -> n_has v (path ++ [k]) c x -> n_has v path (mknode rs sp ch) x.
+
+Lemma in_walk_rrsets {A} (nm : A) rs v x :
+  In x (walk_rrsets nm rs v) <-> exists t d rr, x = (nm, t, rr) /\ In (t, d) rs /\ v_get d v = Some rr.
 Proof.
-  intros s v name t rr.
-  assert (Hrs : forall nm rs, In (name, t, rr) (walk_rrsets nm rs v) <->
-                 nm = name /\ exists d, In (t, d) rs /\ v_get d v = Some rr).
-  { intros nm rs. unfold walk_rrsets. rewrite in_flat_map. split.
-    - intros [[k d] [Hin Hx]]. cbn [fst snd] in Hx. destruct (v_get d v) as [x|] eqn:E; [|destruct Hx].
-      destruct Hx as [Hx|[]]. inversion Hx; subst. split; [reflexivity|]. exists d. split; assumption.
-    - intros [-> [d [Hin Hg]]]. exists (t, d). split; [exact Hin|]. cbn [fst snd]. rewrite Hg. now left. }
-  unfold walk. rewrite in_app_iff, Hrs, in_flat_map. split.
-  - intros [[H0 H]|[[k n] [Hin Hx]]].
-    + left. split; [now symmetry|exact H].
-    + right. unfold walk_node in Hx. cbn [fst snd] in Hx. rewrite in_app_iff, Hrs in Hx.
-      destruct Hx as [[-> H]|Hx].
-      * exists n. split; [exact Hin|left; exact H].
-      * destruct (n_with_special n v) as [[id|]|] eqn:E.
-        -- destruct Hx as [Hx|[]]. inversion Hx; subst. exists n. split; [exact Hin|right; split; [reflexivity|exact E]].
-        -- destruct Hx.
-        -- destruct Hx.
-  - intros [[-> H]|[n [Hin H]]].
-    + left. split; [reflexivity|exact H].
-    + right. exists (name, n). split; [exact Hin|]. unfold walk_node. cbn [fst snd]. rewrite in_app_iff, Hrs.
-      destruct H as [H|[-> E]]; [left; split; [reflexivity|exact H]|right]. rewrite E. now left.
+  unfold walk_rrsets. rewrite in_flat_map. split.
+  - intros [[k d] [Hin Hx]]. cbn [fst snd] in Hx. destruct (v_get d v) as [y|] eqn:E; [|destruct Hx].
+    destruct Hx as [Hx|[]]. subst x. exists k, d, y. repeat split; assumption.
+  - intros [t [d [rr [-> [Hin Hg]]]]]. exists (t, d). split; [exact Hin|]. cbn [fst snd]. rewrite Hg. now left.
+Qed.
+
+Lemma in_opt_item {A} (nm : A) t o x : In x (opt_item nm t o) <-> exists id, o = Some id /\ x = (nm, t, id).
+Proof.
+  destruct o as [id|]; cbn [opt_item In]; split.
+  - intros [H|[]]. exists id. split; [reflexivity|now symmetry].
+  - intros [id' [E ->]]. inversion E; subst. now left.
+  - intros [].
+  - intros [id' [E _]]. discriminate.
+Qed.
+
+Lemma walk_node_has v x : forall n path, In x (walk_node path n v) <-> n_has v path n x.
+Proof.
+  induction n as [rs sp ch IH] using znode_ind'. intros path. rewrite walk_node_eq, in_app_iff, in_walk_rrsets.
+  assert (Hkids : In x (flat_map (fun p => walk_node (path ++ [fst p]) (snd p) v) ch) <->
+                  exists k c, In (k, c) ch /\ n_has v (path ++ [k]) c x).
+  { rewrite in_flat_map. rewrite Forall_forall in IH. split.
+    - intros [[k c] [Hin Hx]]. exists k, c. split; [exact Hin|]. exact (proj1 (IH (k, c) Hin _) Hx).
+    - intros [k [c [Hin Hx]]]. exists (k, c). split; [exact Hin|]. exact (proj2 (IH (k, c) Hin _) Hx). }
+  split.
+  - intros [[t [d [rr [-> [Hin Hg]]]]]|Hx]; [now apply (has_rr v path rs sp ch t d rr)|].
+    destruct (sp_get sp v) as [[ns ds glue|id|]|] eqn:E.
+    + rewrite !in_app_iff, !in_opt_item in Hx. destruct Hx as [[Hx|[]]|[[d [-> ->]]|[g [-> ->]]]].
+      * subst x. now apply (has_cut_ns v path rs sp ch ns ds glue).
+      * now apply (has_cut_ds v path rs sp ch ns d glue).
+      * now apply (has_cut_glue v path rs sp ch ns ds g).
+    + rewrite in_app_iff in Hx. destruct Hx as [[Hx|[]]|Hx]; [subst x; now apply has_cname|].
+      apply Hkids in Hx. destruct Hx as [k [c [Hin Hx]]]. apply (has_child v path rs sp ch k c); [intros; rewrite E; discriminate|exact Hin|exact Hx].
+    + apply Hkids in Hx. destruct Hx as [k [c [Hin Hx]]]. apply (has_child v path rs sp ch k c); [intros; rewrite E; discriminate|exact Hin|exact Hx].
+    + apply Hkids in Hx. destruct Hx as [k [c [Hin Hx]]]. apply (has_child v path rs sp ch k c); [intros; rewrite E; discriminate|exact Hin|exact Hx].
+  - intros H. inversion H as [? ? ? ? t d rr Hin Hg|? ? ? ? ns ds glue E|? ? ? ? ns d glue E|? ? ? ? ns ds g E|? ? ? ? id E|? ? ? ? k c ? Hnc Hin Hx]; subst.
+    + left. exists t, d, rr. repeat split; assumption.
+    + right. rewrite E. cbn [app In]. now left.
+    + right. rewrite E. rewrite !in_app_iff, !in_opt_item. right. left. exists d. split; reflexivity.
+    + right. rewrite E. rewrite !in_app_iff, !in_opt_item. right. right. exists g. split; reflexivity.
+    + right. rewrite E. cbn [app In]. now left.
+    + right. assert (Hk : In x (flat_map (fun p => walk_node (path ++ [fst p]) (snd p) v) ch)) by (apply Hkids; eauto).
+      destruct (sp_get sp v) as [[ns ds glue|id|]|] eqn:E; [exfalso; exact (Hnc ns ds glue eq_refl)| | |]; try exact Hk.
+      rewrite in_app_iff. now right.
+Qed.
+
+Theorem walk_exact : forall s v x,
+  In x (walk s v) <->
+  (exists t d rr, x = ([], t, rr) /\ In (t, d) (z_apex s) /\ v_get d v = Some rr) \/
+  (exists k n, In (k, n) (z_nodes s) /\ n_has v [k] n x).
+Proof.
+  intros s v x. unfold walk. rewrite in_app_iff, in_walk_rrsets, in_flat_map. split.
+  - intros [H|[[k n] [Hin Hx]]]; [now left|]. right. exists k, n. split; [exact Hin|]. now apply walk_node_has.
+  - intros [H|[k [n [Hin Hx]]]]; [now left|]. right. exists (k, n). split; [exact Hin|]. now apply walk_node_has.
 Qed.
 
 (* ---------------------------------------------------------------- reachable states *)
@@ -399,6 +476,20 @@ Proof.
     (apply Forall_al_upd; [|constructor|exact H]); intros d Hd; [now apply le_remove|now apply le_update].
 Qed.
 
+Lemma n_upto_empty c : n_upto c empty_node.
+Proof. constructor; constructor. Qed.
+
+Lemma path_do_upto c fresh f :
+  n_upto c fresh -> (forall n, n_upto c n -> n_upto c (f n)) ->
+  forall p ns, Forall (fun q => n_upto c (snd q)) ns -> Forall (fun q => n_upto c (snd q)) (path_do ns p fresh f).
+Proof.
+  intros Hfresh Hf. induction p as [|l rest IH]; intros ns H; cbn [path_do]; [exact H|].
+  apply (Forall_al_upd (n_upto c)); [|exact Hfresh|exact H].
+  intros n Hn. destruct rest as [|l' rest']; [now apply Hf|].
+  destruct n as [rs sp ch]. inversion Hn as [? ? ? H1 H2 H3]; subst. unfold set_children. cbn [n_rrsets n_special n_children].
+  constructor; [exact H1|exact H2|]. now apply IH.
+Qed.
+
 (* every zone made by the ZoneBuilder satisfies the invariant *)
 Lemma build_zinv is : zinv (build is) /\ z_cur (build is) = 0 /\ z_writer (build is) = None.
 Proof.
@@ -406,45 +497,49 @@ Proof.
   assert (H : forall s, (z_le 0 s /\ z_cur s = 0 /\ z_writer s = None) ->
               (z_le 0 (fold_left build_one is s) /\ z_cur (fold_left build_one is s) = 0 /\ z_writer (fold_left build_one is s) = None)).
   { induction is as [|i tl IH]; intros s Hs; [exact Hs|]. cbn [fold_left]. apply IH.
-    destruct Hs as [[Ha Hn] [Hc Hw]]. destruct i as [name t rr|name id]; cbn [build_one].
-    - destruct (name =? 0).
-      + repeat split; cbn [set_apex z_apex z_nodes z_cur z_writer]; auto. now apply rs_update_le.
-      + repeat split; cbn [set_nodes z_apex z_nodes z_cur z_writer]; auto.
-        apply (Forall_al_upd (fun n => Forall (fun q => le_all 0 (snd q)) (n_rrsets n) /\ le_all 0 (n_special n))); [| |exact Hn].
-        * intros n [H1 H2]. cbn [n_rrsets n_special]. split; [now apply rs_update_le|exact H2].
-        * split; constructor.
-    - destruct (name =? 0); [repeat split; auto|].
-      repeat split; cbn [set_nodes z_apex z_nodes z_cur z_writer]; auto.
-      apply (Forall_al_upd (fun n => Forall (fun q => le_all 0 (snd q)) (n_rrsets n) /\ le_all 0 (n_special n))); [| |exact Hn].
-      + intros n [H1 H2]. unfold n_update_special. cbn [n_rrsets n_special]. split; [exact H1|now apply le_update].
-      + split; constructor. }
-  destruct (H (mkz 0 [] [] None)) as [H1 [H2 H3]]; [repeat split; constructor|].
+    destruct Hs as [[Ha Hn] [Hc Hw]].
+    assert (Hsp : forall sp n, n_upto 0 n -> n_upto 0 (n_update_special n 0 sp)).
+    { intros sp [rs sp0 ch] Hn0. inversion Hn0 as [? ? ? H1 H2 H3]; subst. unfold n_update_special, set_special. cbn [n_rrsets n_special n_children].
+      constructor; [exact H1|now apply le_update|exact H3]. }
+    destruct i as [name t rr|name id|name ns ds glue]; cbn [build_one]; destruct name as [|l rest];
+      try (split; [split; assumption|split; assumption]).
+    - repeat split; cbn [set_apex z_apex z_nodes z_cur z_writer]; auto. now apply rs_update_le.
+    - repeat split; cbn [set_nodes z_apex z_nodes z_cur z_writer]; auto.
+      apply path_do_upto; [apply n_upto_empty| |exact Hn].
+      intros [rs sp ch] Hn0. inversion Hn0 as [? ? ? H1 H2 H3]; subst. unfold set_rrsets. cbn [n_rrsets n_special n_children].
+      constructor; [now apply rs_update_le|exact H2|exact H3].
+    - repeat split; cbn [set_nodes z_apex z_nodes z_cur z_writer]; auto.
+      apply path_do_upto; [apply n_upto_empty|apply Hsp|exact Hn].
+    - repeat split; cbn [set_nodes z_apex z_nodes z_cur z_writer]; auto.
+      apply path_do_upto; [apply n_upto_empty|apply Hsp|exact Hn]. }
+  destruct (H (mkz 0 [] [] None None)) as [H1 [H2 H3]]; [repeat split; constructor|].
   split; [|split; assumption]. unfold zinv. rewrite H3, H2. exact H1.
 Qed.
 
-Lemma run_zinv evs : forall s, zinv s -> z_cur s + ncommits evs + 2 < LIM ->
+Lemma run_zinv evs : forall s, zinv s -> z_cur s + ncommits evs + 2 < LIM -> stale_free evs ->
   zinv (run s evs) /\ z_cur (run s evs) <= z_cur s + ncommits evs.
 Proof.
-  induction evs as [|e tl IH]; intros s Hinv Hlim; [cbn; split; [exact Hinv|lia]|].
+  induction evs as [|e tl IH]; intros s Hinv Hlim Hsf; [cbn; split; [exact Hinv|lia]|].
+  destruct (stale_free_cons _ _ Hsf) as [Hse Hsf'].
   assert (Hl : z_cur s + 2 < LIM) by (cbn [ncommits] in Hlim; destruct e; lia).
-  destruct (step_inv s e Hinv Hl) as [Hinv' [Hmono [Hup _]]].
+  destruct (step_inv s e Hinv Hl Hse) as [Hinv' [Hmono [Hup _]]].
   cbn [run fold_left]. change (fold_left step tl (step s e)) with (run (step s e) tl).
   assert (Hlim' : z_cur (step s e) + ncommits tl + 2 < LIM) by (cbn [ncommits] in Hlim; destruct e; lia).
-  destruct (IH (step s e) Hinv' Hlim') as [H1 H2]. split; [exact H1|].
+  destruct (IH (step s e) Hinv' Hlim' Hsf') as [H1 H2]. split; [exact H1|].
   cbn [ncommits]. destruct e; lia.
 Qed.
 
 (* the invariant holds in every state reachable from a built zone by API calls *)
 Theorem reachable_invariant : forall is evs,
-  ncommits evs + 2 < LIM -> zinv (run (build is) evs).
+  ncommits evs + 2 < LIM -> stale_free evs -> zinv (run (build is) evs).
 Proof.
-  intros is evs Hlim. destruct (build_zinv is) as [H1 [H2 H3]].
-  apply run_zinv; [exact H1|]. rewrite H2. lia.
+  intros is evs Hlim Hsf. destruct (build_zinv is) as [H1 [H2 H3]].
+  apply run_zinv; [exact H1| |exact Hsf]. rewrite H2. lia.
 Qed.
 
 (* ---------------------------------------------------------------- non-vacuity *)
 
-Definition wit_zone : zstate := build [IRrset 0 6 1; IRrset 2 1 11].
+Definition wit_zone : zstate := build [IRrset [] 6 1; IRrset [2] 1 11].
 
 Lemma wit_zinv : zinv wit_zone /\ z_writer wit_zone = None /\ z_cur wit_zone = 0.
 Proof.
@@ -454,22 +549,83 @@ Qed.
 (* the history of DESIGN section 7 #13 (node existence used not to be versioned):
    update_child for a new name, seen by a held reader, then aborted / committed *)
 Example ex_update_child_invisible :
-  let s1 := run wit_zone [EWAcquire; EWOpen; EUpdate 3 1 12] in
-  query wit_zone 0 3 1 = ANx (Some 1) /\
-  query s1 0 3 1 = ANx (Some 1) /\
-  query (run s1 [EDrop]) 0 3 1 = ANx (Some 1) /\
-  query (run s1 [ECommit]) 0 3 1 = ANx (Some 1) /\
-  query (run s1 [ECommit]) 1 3 1 = AData 12 /\
+  let s1 := run wit_zone [EWAcquire; EWOpen; EUpdate [3] 1 12] in
+  query wit_zone 0 [3] 1 = ANx (Some 1) /\
+  query s1 0 [3] 1 = ANx (Some 1) /\
+  query (run s1 [EDrop]) 0 [3] 1 = ANx (Some 1) /\
+  query (run s1 [ECommit]) 0 [3] 1 = ANx (Some 1) /\
+  query (run s1 [ECommit]) 1 [3] 1 = AData 12 /\
   node_exists (z_nodes (run s1 [EDrop])) 3 = true.
 Proof. repeat split; reflexivity. Qed.
 
 Example ex_session :
-  query (run wit_zone ([EWAcquire; EWOpen] ++ [EUpdate 2 1 13])) 0 2 1 = AData 11 /\
-  query (run wit_zone ([EWAcquire; EWOpen] ++ [EUpdate 2 1 13] ++ [ECommit])) 1 2 1 = AData 13 /\
-  query (run wit_zone ([EWAcquire; EWOpen] ++ [EUpdate 2 1 13] ++ [ECommit])) 0 2 1 = AData 11 /\
-  query (run wit_zone ([EWAcquire; EWOpen] ++ [EUpdate 2 1 13] ++ [EDrop])) 1 2 1 = AData 11 /\
-  walk (run wit_zone ([EWAcquire; EWOpen] ++ [EUpdate 2 1 13] ++ [ECommit])) 1 = [(0, 6, 1); (2, 1, 13)].
+  query (run wit_zone ([EWAcquire; EWOpen] ++ [EUpdate [2] 1 13])) 0 [2] 1 = AData 11 /\
+  query (run wit_zone ([EWAcquire; EWOpen] ++ [EUpdate [2] 1 13] ++ [ECommit])) 1 [2] 1 = AData 13 /\
+  query (run wit_zone ([EWAcquire; EWOpen] ++ [EUpdate [2] 1 13] ++ [ECommit])) 0 [2] 1 = AData 11 /\
+  query (run wit_zone ([EWAcquire; EWOpen] ++ [EUpdate [2] 1 13] ++ [EDrop])) 1 [2] 1 = AData 11 /\
+  walk (run wit_zone ([EWAcquire; EWOpen] ++ [EUpdate [2] 1 13] ++ [ECommit])) 1 = [([], 6, 1); ([2], 1, 13)].
 Proof. repeat split; reflexivity. Qed.
 Example ex_second_writer :
   trace wit_zone [] [EWAcquire; EWAcquire; EDrop; EWAcquire] = [OGranted; OPending; OGranted].
+Proof. reflexivity. Qed.
+
+(* below the first level: a three-label name makes two empty non-terminals; a
+   wildcard beside them stops matching for new readers only; remove_all at the
+   inner node reaches the grandchild; a zone cut refers and ends the walk *)
+Example ex_tree :
+  let z := build [IRrset [] 6 1; IRrset [2; 1] 1 81; ICut [4] 91 (Some 92) None; IRrset [4; 5] 1 94] in
+  let s1 := run z [EWAcquire; EWOpen; EUpdate [2; 3; 4] 1 82] in
+  query z 0 [2; 3] 1 = AData 81 /\
+  query s1 0 [2; 3] 1 = AData 81 /\
+  query (run s1 [ECommit]) 0 [2; 3] 1 = AData 81 /\
+  query (run s1 [ECommit]) 1 [2; 3] 1 = ANoData (Some 1) /\
+  query (run s1 [ECommit]) 1 [2; 3; 4] 1 = AData 82 /\
+  query (run s1 [EDrop]) 0 [2; 3; 4] 1 = AData 81 /\
+  query (run s1 [ECommit; EWOpen; ERemoveAllAt [2]; ECommit]) 2 [2; 3; 4] 1 = ANx (Some 1) /\
+  query (run s1 [ECommit; EWOpen; ERemoveAllAt [2]; ECommit]) 1 [2; 3; 4] 1 = AData 82 /\
+  query z 0 [4; 5] 1 = ARefer 91 (Some 92) None /\ query z 0 [4] 43 = AData 92 /\
+  walk z 0 = [([], 6, 1); ([2; 1], 1, 81); ([4], 2, 91); ([4], 43, 92)] /\
+  query z 0 [2; 1] 255 = AAny.
+Proof. repeat split; reflexivity. Qed.
+
+(* ---------------------------------------------------------------- write handle used after its session *)
+
+(* A WriteNode obtained before commit() keeps writing at the version it was opened
+   for, which is the CURRENT version after the commit: a reader acquired after the
+   commit sees the record change without any further commit.  (When the handle is
+   rejected -- T1 flag stale_handle_rejected -- the premise is false.) *)
+Lemma stale_handle_refuted :
+  stale_handle_rejected = false ->
+  exists s evs r name t,
+    zinv s /\ r <= z_cur s /\ z_cur s + ncommits evs + 2 < LIM /\ no_stale evs = false /\
+    query s r name t = AData 21 /\ query (run s evs) r name t = AData 22.
+Proof.
+  intros H.
+  first
+    [ discriminate H
+    | exists (run wit_zone [EWAcquire; EWOpen; EUpdate [2] 1 21; ECommit]), [EStale (EUpdate [2] 1 22)], 1, [2], 1;
+      split; [apply reachable_invariant; [cbn; unfold LIM; lia|right; reflexivity]|];
+      repeat split; try reflexivity; cbn; unfold LIM; lia ].
+Qed.
+
+(* ... and after the writer was dropped the handle still writes, without the lock,
+   at the version number the next writer will use: that writer's commit publishes it *)
+Lemma stale_handle_after_drop_refuted :
+  stale_handle_rejected = false ->
+  exists s evs name t,
+    zinv s /\ z_writer s = None /\ no_stale evs = false /\
+    query s 1 name t = ANoData (Some 1) /\ query (run s evs) 1 name t = AData 31.
+Proof.
+  intros H.
+  first
+    [ discriminate H
+    | exists (run wit_zone [EWAcquire; EWOpen; EUpdate [2] 1 21; EDrop]),
+        [EStale (EUpdate [2] 16 31); EWAcquire; EWOpen; EUpdate [2] 1 22; ECommit], [2], 16;
+      split; [apply reachable_invariant; [cbn; unfold LIM; lia|right; reflexivity]|];
+      repeat split; reflexivity ].
+Qed.
+
+Example ex_stale_rejected_or_effective :
+  trace (run wit_zone [EWAcquire; EWOpen; ECommit]) [] [EStale (EUpdate [2] 1 22)]
+  = [if stale_handle_rejected then OStaleRejected else OStaleDone].
 Proof. reflexivity. Qed.
